@@ -309,8 +309,8 @@ func (h *harness) senderCase(class string, s sgn, t txv) (string, common.Address
 		} else {
 			tx2 := new(types.Transaction)
 			if err := tx2.UnmarshalJSON(js); err != nil {
-				if t.price.BitLen() > 256 || t.value.BitLen() > 256 {
-					h.c.Count("json-rejects-over-256-bit-amount")
+				if t.price.BitLen() > 256 || t.value.BitLen() > 256 || t.v.BitLen() > 256 {
+					h.c.Count("json-rejects-over-256-bit-amount-or-V(hexutil.Big limit)")
 				} else {
 					h.c.Violate("json-roundtrip/"+t.token(), "an attributed transaction's JSON form is rejected", map[string]string{"json": string(js), "err": err.Error(), "signer": s.tok, "rlp": vh.Hex(t.rlp())})
 				}
@@ -532,7 +532,7 @@ func main() {
 		// 4f. chain id / V offsets around the signed values
 		h.chainSweep(i, s, signedV, want, i >= 2 && i < c.Scale(3, 24))
 		// 4g. field-patched JSON documents (values taken from the previously signed transaction)
-		if prevSigned != nil && i < c.Scale(8, 200) {
+		if prevSigned != nil && i < c.Scale(6, 200) {
 			h.jsonPatched(signed, prevSigned, s)
 		}
 		prevSigned = signed
@@ -582,6 +582,9 @@ func main() {
 		h.senderCase("random-r-boundary-s", s, t)
 		h.jsonEntrance(s, t)
 	}
+
+	// 5a'. chain ids beyond 32 / 64 bits, pairs congruent modulo 2^32 / 2^64, V around multiples of 2^64
+	h.wideChains()
 
 	// 5b. acceptance at the places the property's anchors name
 	h.acceptance()
@@ -1235,7 +1238,7 @@ func (h *harness) jsonEntrance(s sgn, t txv) {
 	viaRLP := t.build()
 	rr, ra, rok := signerSender(s, viaRLP)
 	if err != nil {
-		if rok && t.price.BitLen() <= 256 && t.value.BitLen() <= 256 {
+		if rok && t.price.BitLen() <= 256 && t.value.BitLen() <= 256 && t.v.BitLen() <= 256 {
 			c.Violate("json-entrance-refuses-attributed-tx/"+s.tok+"/"+t.token(), "the JSON entrance refuses a transaction that is attributed to a sender when it arrives as RLP", map[string]string{"json": string(doc), "signer": s.tok, "rlp": vh.Hex(t.rlp()), "sender": rr})
 		}
 		return
@@ -1706,6 +1709,17 @@ func replay(h *harness, file string) {
 	}
 	if err := json.Unmarshal(raw, &rp); err != nil {
 		h.c.Fatal("replay: %v", err)
+	}
+	if rp.Replay["scenario"] == "wide-chain-pair" {
+		c1, _ := new(big.Int).SetString(strings.TrimPrefix(rp.Replay["chain_signed"], "0x"), 16)
+		c2, _ := new(big.Int).SetString(strings.TrimPrefix(rp.Replay["chain_replayed"], "0x"), 16)
+		key, _ := btcec.PrivKeyFromBytes(vh.UnHex(rp.Replay["key"]))
+		utx := new(types.Transaction)
+		if err := rlp.DecodeBytes(vh.UnHex(rp.Replay["unsigned_rlp"]), utx); err != nil || c1 == nil || c2 == nil {
+			h.c.Fatal("replay: unusable wide-chain scenario")
+		}
+		h.widePair(c1, c2, key, fromTx(utx))
+		return
 	}
 	if doc := rp.Replay["json"]; doc != "" && rp.Replay["patched"] != "" {
 		tx2 := new(types.Transaction)
